@@ -562,8 +562,28 @@ def plan_c15(doc, man, args):
     return acts
 
 
+def plan_c18_ops(doc, man, args):
+    N, loc, body = args["N"], args["loc"], args["body"]
+    acts = []
+    for ep in man["endpoints"]:
+        py = {}
+        for l in ("path", "query", "header", "cookie"):
+            for p in ep["params"][l]:
+                py[(l, p["name"])] = p["python_name"]
+        kwargs = {}
+        vals = {(loc, N): "val", ("query", "other"): "ov", ("header", "hh"): "hv", ("cookie", "cc"): "cv", ("query", "lstq"): {"$t": "list", "v": [{"$t": "date", "v": "2020-01-02"}]}}
+        for k, v in vals.items():
+            if k in py:
+                kwargs[py[k]] = v
+        if body and ep["bodies"]:
+            kwargs["body"] = {"$t": "model", "cls": ep["bodies"][0]["prop"]["cls"], "v": {"b": "bv"}}
+        acts.append({"a": "call", "module": f"api.{ep['tag']}.{ep['module']}", "variants": ["sync_detailed", "asyncio_detailed", "sync", "asyncio"], "args": kwargs, "client": {},
+                     "response": {"status": 200, "headers": [["content-type", "application/json"]], "content": "eyJyIjogIngifQ=="}, "x": {}})
+    return acts
+
+
 def plan_import(doc, man, args):
     return [{"a": "import_all"}]
 
 
-PLANS = {"models": plan_models, "ops": plan_ops, "import": plan_import, "models_given": plan_models_given, "defaults": plan_defaults, "c05": plan_c05, "c14": plan_c14, "c13": plan_c13, "c10": plan_c10, "c15": plan_c15}
+PLANS = {"models": plan_models, "ops": plan_ops, "import": plan_import, "models_given": plan_models_given, "defaults": plan_defaults, "c05": plan_c05, "c14": plan_c14, "c13": plan_c13, "c10": plan_c10, "c15": plan_c15, "c18_ops": plan_c18_ops}
